@@ -43,7 +43,7 @@ COMPONENTS = {
     "stub_or_harness": ["FaultyReader/FaultyWriter proxies", "frame wrappers", "reference interpreter (expected mode per operation)", "spec/value/fault generators"],
 }
 FAULT_KINDS = ["writer_exception", "writer_cancel", "reader_exception", "reader_cancel", "invalid_object", "hostile_bytes_error"]
-PROBES = ["bytes_compared_with_reference", "wire_differs_otherwise", "packet_write_method", "fault_at_first_call", "fault_at_last_call", "fault_in_nested_frame", "fault_three_frames_deep",
+PROBES = ["mode_kept_by_a_subclass_property", "bytes_compared_with_reference", "wire_differs_otherwise", "packet_write_method", "fault_at_first_call", "fault_at_last_call", "fault_in_nested_frame", "fault_three_frames_deep",
           "entry_mode_true_on_class_with_chunked", "fault_on_add_byte", "fault_on_next_chunk", "unaligned", "aligned",
           "serialize_failed_value_skipped", "nested_frames_checked"]
 
@@ -109,7 +109,10 @@ class Runner:
         exc = {"exception": SimFault("injected"), "cancel": SimCancel("injected")}.get(exc_kind)
         del te.c15_frames[:]
         if direction == "serialize":
-            proxy = te.FaultyWriter(fault_at, exc, cap=400_000)
+            detached = (fault_at if fault_at is not None else int(bool(entry)) + 1) % 3 == 2
+            if detached:
+                self.res.count("probe.mode_kept_by_a_subclass_property")
+            proxy = te.FaultyWriter(fault_at, exc, cap=400_000, detached=detached)
             proxy.string_sanitization_mode = entry
             # packets are also written through their generated write() method (every other fault index, and the
             # fault-free run that starts in sanitising mode)
@@ -121,7 +124,10 @@ class Runner:
                 fn = lambda: cls.serialize(proxy, payload)          # noqa
             mode = lambda: bool(proxy.string_sanitization_mode)  # noqa
         else:
-            proxy = te.FaultyReader(payload, fault_at, exc, cap=400_000)
+            detached = (fault_at if fault_at is not None else int(bool(entry)) + 1) % 3 == 2
+            if detached:
+                self.res.count("probe.mode_kept_by_a_subclass_property")
+            proxy = te.FaultyReader(payload, fault_at, exc, cap=400_000, detached=detached)
             proxy.chunked_reading_mode = entry
             fn = lambda: cls.deserialize(proxy)                  # noqa
             mode = lambda: bool(proxy.chunked_reading_mode)      # noqa
